@@ -76,12 +76,24 @@ var bnOffPaths int32
 // per process; the work is spread over one child process per CPU
 var bnOffKeep = int32(max(3, 48/max(1, runtime.NumCPU())))
 
+// bnInts is a JSON array that is never null.
+type bnInts []int
+
+func (b bnInts) MarshalJSON() ([]byte, error) {
+	if b == nil {
+		return []byte("[]"), nil
+	}
+	return json.Marshal([]int(b))
+}
+
 type bnAct struct {
 	Op  string `json:"op"`
 	S   int    `json:"s"`
 	H   int    `json:"h"`
+	Bl  bnInts `json:"bl"`
 	S2  int    `json:"s2"`
 	H2  int    `json:"h2"`
+	Bl2 bnInts `json:"bl2"`
 	K   int    `json:"k"`
 	Res string `json:"res"`
 }
@@ -125,26 +137,12 @@ func bnHeader(k int) wire.BlockHeader {
 	return wire.BlockHeader{Version: 1, Nonce: uint32(k), Timestamp: time.Unix(1600000000+int64(k)*600, 0)}
 }
 
-// bnEvent builds the notification of event k.  Live events are a mix of
-// connected and disconnected notifications (the manager must pass both
-// through); backlog entries are always connected ones, as blockManager's.
-func bnEvent(k int, live bool) BlockNtfn {
-	h := bnHeader(k)
-	if live && k%4 == 0 {
-		return NewBlockDisconnected(h, uint32(k), h)
-	}
-	return NewBlockConnected(h, uint32(k))
-}
-
-func bnDecode(n BlockNtfn) int {
-	if n == nil {
-		return -2
-	}
-	k := int(n.Height())
-	if n.Header().Nonce != uint32(k) || k <= 0 {
-		return -2
-	}
-	return k
+// bnEv is one event of the scripted source: the Connected notification of a
+// new block at the given height, or the Disconnected notification of the tip.
+// Its id (position in emission order) travels in the header nonce.
+type bnEv struct {
+	kind   byte // 'C' or 'D'
+	height int
 }
 
 func bnDump() string {
@@ -166,17 +164,77 @@ type bnSource struct {
 	accepted int
 	loops    int
 	tick     chan struct{}
-	lastTip  int         // tip reported by the most recent backlog call (-1: none)
-	tipByH   map[int]int // free runs: tip reported to the most recent call with that height
-	onAccept func(k int) // called under mu when the take of event k is noticed
+	evs      []bnEv // evs[id]; evs[0] is unused
+	chainOff []int  // the chain after every OFFERED event: ids of the Connected events by height-1
+	chainAcc []int  // the chain after the events the handler has TAKEN
+	lastTip  int    // events taken at the most recent backlog call (-1: none)
+	lastBl   []int  // what that call answered (event ids)
+	byH      map[int]bnAnswer // the most recent answer per requested height
+	onAccept func(k int)      // called under mu when the take of event k is noticed
 
 	// strict replay: the next backlog call signals gateHit and waits for gate
 	// (holds the handler inside handleNewSubscription)
 	gate, gateHit chan struct{}
 }
 
+type bnAnswer struct {
+	k  int
+	bl []int
+}
+
 func bnNewSource(slots int) *bnSource {
-	return &bnSource{cur: make(chan BlockNtfn, slots), tick: make(chan struct{}), lastTip: -1}
+	return &bnSource{cur: make(chan BlockNtfn, slots), tick: make(chan struct{}), lastTip: -1,
+		evs: make([]bnEv, 1), byH: map[int]bnAnswer{}}
+}
+
+// offerLocked creates the next event (a Connected one extending the offered
+// chain, or the Disconnected one of its tip) and puts it into the source
+// channel, which must have a free slot.
+func (s *bnSource) offerLocked(kind byte) int {
+	id := len(s.evs)
+	var n BlockNtfn
+	if kind == 'D' && len(s.chainOff) > 0 {
+		h := len(s.chainOff)
+		s.chainOff = s.chainOff[:h-1]
+		var tip wire.BlockHeader
+		if h > 1 {
+			tip = bnHeader(s.chainOff[h-2])
+		}
+		s.evs = append(s.evs, bnEv{'D', h})
+		n = NewBlockDisconnected(bnHeader(id), uint32(h), tip)
+	} else {
+		s.chainOff = append(s.chainOff, id)
+		s.evs = append(s.evs, bnEv{'C', len(s.chainOff)})
+		n = NewBlockConnected(bnHeader(id), uint32(len(s.chainOff)))
+	}
+	s.cur <- n
+	s.inflight = id
+	return id
+}
+
+// decodeLocked maps a received notification to its event id (-2: not an
+// event of this source, or altered).
+func (s *bnSource) decode(n BlockNtfn) int {
+	if n == nil {
+		return -2
+	}
+	id := int(n.Header().Nonce)
+	if id <= 0 || id >= len(s.evs) || int(n.Height()) != s.evs[id].height {
+		return -2
+	}
+	switch n.(type) {
+	case *Connected:
+		if s.evs[id].kind != 'C' {
+			return -2
+		}
+	case *Disconnected:
+		if s.evs[id].kind != 'D' {
+			return -2
+		}
+	default:
+		return -2
+	}
+	return id
 }
 
 // syncLocked notices which of the offered events the handler has taken:
@@ -184,6 +242,11 @@ func bnNewSource(slots int) *bnSource {
 func (s *bnSource) syncLocked() {
 	for taken := s.inflight - len(s.cur); s.accepted < taken; {
 		s.accepted++
+		if s.evs[s.accepted].kind == 'C' {
+			s.chainAcc = append(s.chainAcc, s.accepted)
+		} else {
+			s.chainAcc = s.chainAcc[:len(s.chainAcc)-1]
+		}
 		if s.onAccept != nil {
 			s.onAccept(s.accepted)
 		}
@@ -209,11 +272,14 @@ func (s *bnSource) Notifications() <-chan BlockNtfn {
 func (s *bnSource) NotificationsSinceHeight(height uint32) ([]BlockNtfn, uint32, error) {
 	s.mu.Lock()
 	s.syncLocked()
-	tip := s.accepted
-	s.lastTip = tip
-	if s.tipByH != nil {
-		s.tipByH[int(height)] = tip
+	tip := len(s.chainAcc)
+	h := int(height)
+	bl := []int{}
+	if h != 0 && h < tip {
+		bl = append(bl, s.chainAcc[h:tip]...)
 	}
+	s.lastTip, s.lastBl = s.accepted, bl
+	s.byH[h] = bnAnswer{s.accepted, bl}
 	gate, hit := s.gate, s.gateHit
 	s.gate, s.gateHit = nil, nil
 	s.mu.Unlock()
@@ -221,16 +287,15 @@ func (s *bnSource) NotificationsSinceHeight(height uint32) ([]BlockNtfn, uint32,
 		close(hit)
 		<-gate // the handler goroutine is held here: no event can be taken meanwhile
 	}
-	h := int(height)
 	if h == 0 || h == tip {
 		return nil, uint32(tip), nil
 	}
 	if h > tip {
 		return nil, 0, fmt.Errorf("request with height %d is greater than best height known %d", h, tip)
 	}
-	blocks := make([]BlockNtfn, 0, tip-h)
-	for i := h + 1; i <= tip; i++ {
-		blocks = append(blocks, bnEvent(i, false))
+	blocks := make([]BlockNtfn, 0, len(bl))
+	for i, id := range bl {
+		blocks = append(blocks, NewBlockConnected(bnHeader(id), uint32(h+1+i)))
 	}
 	return blocks, uint32(tip), nil
 }
@@ -284,15 +349,13 @@ func bnCall(limit time.Duration, fn func()) bool {
 	}
 }
 
-func bnExpLen(h, k, emitted int) int {
-	n := 0
-	if h != 0 && h < k {
-		n = k - h
-	}
+// bnExpLen: how many notifications a subscriber is owed (backlog of nbl
+// entries taken when k events had been emitted; emitted events by now).
+func bnExpLen(nbl, k, emitted int) int {
 	if emitted > k {
-		n += emitted - k
+		return nbl + emitted - k
 	}
-	return n
+	return nbl
 }
 
 // ---------------------------------------------------------------------------
@@ -303,7 +366,7 @@ type bnEnv struct {
 	n       int
 	subs    []*Subscription
 	cst     []int
-	regH    []int
+	regN    []int
 	regK    []int
 	ended   []bool
 	recv    [][]int
@@ -359,7 +422,7 @@ func (e *bnEnv) took(s int, x BlockNtfn, ok bool) int {
 		e.closed[s] = 1
 		return 0
 	}
-	e.recv[s] = append(e.recv[s], bnDecode(x))
+	e.recv[s] = append(e.recv[s], e.src.decode(x))
 	return 1
 }
 
@@ -422,7 +485,7 @@ func (e *bnEnv) exec(in bnStepIn) bnStepOut {
 		s := a.S - 1
 		c0 := e.loops()
 		e.src.mu.Lock()
-		e.src.lastTip = -1
+		e.src.lastTip, e.src.lastBl = -1, nil
 		e.src.mu.Unlock()
 		var sub *Subscription
 		var err error
@@ -432,12 +495,13 @@ func (e *bnEnv) exec(in bnStepIn) bnStepOut {
 			break
 		}
 		e.src.mu.Lock()
-		out.Act.K = e.src.lastTip
+		out.Act.K, out.Act.Bl = e.src.lastTip, nil
+		bl := e.src.lastBl
 		e.src.mu.Unlock()
 		switch {
 		case err == nil:
-			out.Act.Res = "ok"
-			e.subs[s], e.cst[s], e.regH[s], e.regK[s] = sub, 1, a.H, out.Act.K
+			out.Act.Res, out.Act.Bl = "ok", bl
+			e.subs[s], e.cst[s], e.regN[s], e.regK[s] = sub, 1, len(bl), out.Act.K
 			if e.stopped {
 				e.ended[s] = true
 			} else {
@@ -493,7 +557,7 @@ func (e *bnEnv) exec(in bnStepIn) bnStepOut {
 		e.src.mu.Lock()
 		e.src.gate, e.src.gateHit = nil, nil
 		e.src.mu.Unlock()
-		out.Act.Res = "ok"
+		out.Act.Res, out.Act.Bl, out.Act.Bl2 = "ok", nil, nil
 		for i, rc := range []chan res{r1, r2} {
 			s := []int{s1, s2}[i]
 			h := []int{a.H, a.H2}[i]
@@ -509,9 +573,14 @@ func (e *bnEnv) exec(in bnStepIn) bnStepOut {
 					continue
 				}
 				e.src.mu.Lock()
-				k := e.src.lastTip
+				ans := e.src.byH[h]
 				e.src.mu.Unlock()
-				e.subs[s], e.cst[s], e.regH[s], e.regK[s] = r.sub, 1, h, k
+				e.subs[s], e.cst[s], e.regN[s], e.regK[s] = r.sub, 1, len(ans.bl), ans.k
+				if i == 0 {
+					out.Act.Bl = ans.bl
+				} else {
+					out.Act.Bl2 = ans.bl
+				}
 			case <-time.After(bnLong()):
 				bnExpired()
 				e.cst[s] = 3
@@ -524,8 +593,12 @@ func (e *bnEnv) exec(in bnStepIn) bnStepOut {
 		if out.Act.Res == "ok" {
 			e.src.waitFor(bnBlockT, func() bool { return e.src.loops > c0+1 })
 		}
-	case "Emit":
+	case "Emit", "EmitD":
 		out.Act.Res = "ok"
+		kind := byte('C')
+		if a.Op == "EmitD" {
+			kind = 'D'
+		}
 		for k := e.emitted + 1; k <= a.K; k++ {
 			e.src.mu.Lock()
 			c0 := e.src.loops
@@ -534,8 +607,10 @@ func (e *bnEnv) exec(in bnStepIn) bnStepOut {
 				out.Act.Res, out.Diag = "blocked", "previous event never taken\n"+bnDump()
 				break
 			}
-			e.src.cur <- bnEvent(k, true)
-			e.src.inflight = k
+			if id := e.src.offerLocked(kind); id != k {
+				e.src.mu.Unlock()
+				panic(fmt.Sprintf("event numbering out of step: %d vs %d", id, k))
+			}
 			e.src.mu.Unlock()
 			e.emitted = k
 			if !e.src.waitFor(bnBlockT, func() bool { return e.src.accepted >= k && e.src.loops > c0 }) {
@@ -601,7 +676,7 @@ func (e *bnEnv) exec(in bnStepIn) bnStepOut {
 				}
 				continue
 			}
-			want := bnExpLen(e.regH[s], e.regK[s], e.emitted)
+			want := bnExpLen(e.regN[s], e.regK[s], e.emitted)
 			for len(e.recv[s]) < want {
 				if e.readOne(s, long) != 1 {
 					e.off = true
@@ -652,7 +727,7 @@ func bnRunPath(p bnPathIn) (out bnPathOut) {
 	}
 	src := bnNewSource(1)
 	e := &bnEnv{m: NewSubscriptionManager(src), src: src, n: n, subs: make([]*Subscription, n),
-		cst: make([]int, n), regH: make([]int, n), regK: make([]int, n), ended: make([]bool, n),
+		cst: make([]int, n), regN: make([]int, n), regK: make([]int, n), ended: make([]bool, n),
 		recv: make([][]int, n), closed: make([]int, n)}
 	defer func() {
 		if r := recover(); r != nil {
@@ -688,7 +763,7 @@ func bnRunPath(p bnPathIn) (out bnPathOut) {
 			e.cst[st.Act.S2-1] != 0 || e.stopped) {
 			break
 		}
-		if op == "Emit" && e.stopped {
+		if (op == "Emit" || op == "EmitD") && e.stopped {
 			break
 		}
 		was := e.off
@@ -1115,7 +1190,7 @@ type bnFree struct {
 	recv     [][]int
 	closed   []int
 	subs     []*Subscription
-	regH     []int
+	regN     []int
 	regK     []int
 	ended    []bool
 	stopRet  bool
@@ -1155,7 +1230,7 @@ func (f *bnFree) got(s int, x BlockNtfn, ok bool) bool {
 	f.src.mu.Lock()
 	f.src.syncLocked()
 	if ok {
-		f.recv[s] = append(f.recv[s], bnDecode(x))
+		f.recv[s] = append(f.recv[s], f.src.decode(x))
 	} else {
 		f.closed[s] = 1
 	}
@@ -1186,8 +1261,14 @@ func bnFreeRun(id int, seed int64, minEv, maxEv int, profile string) (out bnPath
 	}
 	src := bnNewSource(slots)
 	f := &bnFree{src: src, n: n, cst: make([]int, n), recv: make([][]int, n), closed: make([]int, n),
-		subs: make([]*Subscription, n), regH: make([]int, n), regK: make([]int, n), ended: make([]bool, n)}
-	src.onAccept = func(k int) { f.logLocked(bnAct{Op: "Emit", K: k, Res: "ok"}, "") }
+		subs: make([]*Subscription, n), regN: make([]int, n), regK: make([]int, n), ended: make([]bool, n)}
+	src.onAccept = func(k int) {
+		op := "Emit"
+		if src.evs[k].kind == 'D' {
+			op = "EmitD"
+		}
+		f.logLocked(bnAct{Op: op, K: k, Res: "ok"}, "")
+	}
 	f.m = NewSubscriptionManager(src)
 	f.m.Start()
 	src.waitFor(bnBlockT, func() bool { return src.loops > 0 })
@@ -1202,6 +1283,7 @@ func bnFreeRun(id int, seed int64, minEv, maxEv int, profile string) (out bnPath
 		stopAt = rng.Intn(nev + 1)
 	}
 	burst := rng.Intn(3) == 0 // emitter without think times
+	reorgs := rng.Intn(2) == 0 // the source also disconnects blocks (re-organisations)
 	early := rng.Intn(4) == 0 // emitter starts before anybody has subscribed
 	if profile == "stop" {
 		stopAt, burst, early = 1+rng.Intn(nev), true, false
@@ -1239,14 +1321,13 @@ func bnFreeRun(id int, seed int64, minEv, maxEv int, profile string) (out bnPath
 			plans[s].StartAfter, plans[s].HMode = at, 4
 		}
 	}
-	out.Info = fmt.Sprintf("seed=%d subs=%d events=%d stopAt=%d burst=%v early=%v slots=%d plans=%+v", seed, n, nev, stopAt, burst, early, slots, plans)
+	out.Info = fmt.Sprintf("seed=%d subs=%d events=%d stopAt=%d burst=%v early=%v reorgs=%v slots=%d plans=%+v", seed, n, nev, stopAt, burst, early, reorgs, slots, plans)
 
 	phaseDone := make(chan struct{})
 	// NewSubscription calls overlap freely, except that two calls with the
 	// SAME height are made one after the other, so that the tip the source
 	// reported (which the backlog function learns only by height) can be
 	// attributed to its caller.
-	src.tipByH = map[int]int{}
 	var hMuMu sync.Mutex
 	hMus := map[int]*sync.Mutex{}
 	heightMu := func(h int) *sync.Mutex {
@@ -1272,6 +1353,7 @@ func bnFreeRun(id int, seed int64, minEv, maxEv int, profile string) (out bnPath
 	go func() {
 		defer close(emitDone)
 		erng := rand.New(rand.NewSource(seed ^ 0x5eed))
+		pendingD := 0
 		if !early {
 			src.waitFor(deadline, func() bool { return f.cst[0] != 0 || f.stopRet || f.failed })
 		}
@@ -1287,8 +1369,16 @@ func bnFreeRun(id int, seed int64, minEv, maxEv int, profile string) (out bnPath
 			}
 			// offer as many events as the source channel has free slots
 			for k <= nev && len(src.cur) < cap(src.cur) {
-				src.cur <- bnEvent(k, true)
-				src.inflight = k
+				kind := byte('C')
+				if pendingD > 0 && len(src.chainOff) > 0 {
+					kind = 'D'
+					pendingD--
+				} else if pendingD = 0; reorgs && len(src.chainOff) > 0 && erng.Intn(8) == 0 {
+					// a re-organisation: 1..4 blocks go, replacements follow
+					kind = 'D'
+					pendingD = erng.Intn(min(4, len(src.chainOff)))
+				}
+				src.offerLocked(kind)
 				k++
 			}
 			want := src.accepted + 1
@@ -1326,7 +1416,7 @@ func bnFreeRun(id int, seed int64, minEv, maxEv int, profile string) (out bnPath
 
 			src.mu.Lock()
 			src.syncLocked()
-			tip := src.accepted
+			tip := len(src.chainAcc)
 			src.mu.Unlock()
 			h := 0
 			switch p.HMode {
@@ -1337,18 +1427,18 @@ func bnFreeRun(id int, seed int64, minEv, maxEv int, profile string) (out bnPath
 			case 3:
 				h = tip + 1 + srng.Intn(3)
 			case 4:
-				h = max(1, p.StartAfter-s)
+				h = max(1, tip-s)
 			}
 			subMu := heightMu(h)
 			subMu.Lock()
 			src.mu.Lock()
-			delete(src.tipByH, h)
+			delete(src.byH, h)
 			src.mu.Unlock()
-			tipOf := func() int {
-				if k, ok := src.tipByH[h]; ok {
-					return k
+			answer := func() bnAnswer {
+				if a, ok := src.byH[h]; ok {
+					return a
 				}
-				return -1
+				return bnAnswer{k: -1}
 			}
 			var sub *Subscription
 			var err error
@@ -1365,14 +1455,18 @@ func bnFreeRun(id int, seed int64, minEv, maxEv int, profile string) (out bnPath
 			}
 			f.log("", func() bnAct {
 				if res == "ok" {
-					f.cst[s], f.subs[s], f.regH[s], f.regK[s] = 1, sub, h, tipOf()
+					f.cst[s], f.subs[s], f.regN[s], f.regK[s] = 1, sub, len(answer().bl), answer().k
 					if f.stopRet {
 						f.ended[s] = true
 					}
 				} else {
 					f.cst[s] = 3
 				}
-				return bnAct{Op: "Subscribe", S: s + 1, H: h, K: tipOf(), Res: res}
+				a := bnAct{Op: "Subscribe", S: s + 1, H: h, K: answer().k, Res: res}
+				if res == "ok" {
+					a.Bl = answer().bl
+				}
+				return a
 			})
 			subMu.Unlock()
 			if res != "ok" {
@@ -1469,7 +1563,7 @@ func bnFreeRun(id int, seed int64, minEv, maxEv int, profile string) (out bnPath
 				defer wgD.Done()
 				src.mu.Lock()
 				closed, ended := f.closed[s] == 1, f.ended[s]
-				want := bnExpLen(f.regH[s], f.regK[s], emitted)
+				want := bnExpLen(f.regN[s], f.regK[s], emitted)
 				src.mu.Unlock()
 				if closed {
 					return
